@@ -156,6 +156,11 @@ class ModuleState(object):
         import copy
         self.ref = []
         for qual, holder, name, obj in _module_items():
+            if isinstance(obj, (list, dict)) and len(obj) == 0:
+                # a container that is empty at import time is not a table or a constant (it can
+                # only be a cache or a registry filled at run time); what such a cache does to
+                # results is judged by behaviour (repeat / reuse / fresh-object relations)
+                continue
             if isinstance(obj, _PLAIN):
                 self.ref.append((qual, holder, name, obj, copy.deepcopy(obj), None))
             else:
@@ -260,7 +265,19 @@ def fit_tables():
 
 
 SELF_ANGLE = st.floats(-359.999999, 359.999999).map(lambda x: {"$o": "Angle", "a": [x]})
-SELF_EPOCH = st.one_of(st.floats(625000.0, 3180000.0), st.floats(2415020.0, 2488070.0)
+def _year_start_offsets():
+    """Instants within a few minutes after/before 0h of 1 January / first of a month (TT), where
+    the UTC read-back crosses a year or month boundary."""
+    from ..oracles import calendar as cal
+    return st.builds(lambda y, m, sec: cal.jdn(y, m, 1) - 0.5 + sec / 86400.0,
+                     st.one_of(st.integers(1972, 2100), st.integers(-2000, 4000)),
+                     st.sampled_from([1, 1, 1, 3, 7, 12]),
+                     st.one_of(st.floats(-120.0, 120.0), st.sampled_from([0.0, 30.0, 60.0, 69.0, -1.0])))
+
+
+SELF_EPOCH = st.one_of(st.floats(625000.0, 3180000.0), st.floats(2415020.0, 2488070.0),
+                       _year_start_offsets(),
+                       st.integers(625000, 3180000).map(lambda n: n + 0.5)
                        ).map(lambda j: {"$o": "Epoch", "a": [j]})
 SELF_INTERP = interp_tables().map(lambda t: {"$o": "Interpolation", "a": t})
 SELF_FIT = fit_tables().map(lambda t: {"$o": "CurveFitting", "a": t})
